@@ -2355,12 +2355,16 @@ impl IdmServerProxyWriteTransaction<'_> {
             self.reload_oauth2_client_providers()?;
         }
 
+        #[cfg(feature = "verif-hooks")]
+        crate::verif::pause("idm_commit.start");
         // Commit everything.
         self.applications.commit();
         self.oauth2rs.commit();
         self.cred_update_sessions.commit();
         self.oauth2_client_providers.commit();
 
+        #[cfg(feature = "verif-hooks")]
+        crate::verif::pause("idm_commit.after_idm");
         trace!("cred_update_session.commit");
         self.qs_write.commit()
     }
